@@ -633,3 +633,34 @@ def r17n(ctx):
             ctx.report("R17n", f, f.node, f"value type {t!r} not dispatched",
                        f"Cell.value knows {sorted(mine)} but not {t!r}, which ElementTyped._get_typed_value decodes: a cell holding only such a value answers None, is_empty() says "
                        f"empty, and rstrip()/optimize_width() delete it with its value")
+
+
+def r09o(ctx):
+    """A mark goes where the whole match is, not where one of its groups is.
+
+    The inserters address text by a regular expression and place the mark at the start / end of *the match* (`sre.start()`, `sre.end()`); a
+    pattern may contain groups for alternation or repetition without meaning "only this part".  `start(g)` / `end(g)` / `span(g)` of a group
+    puts the mark inside the matched text.  Rule (expected count 0 in the package; the detector is checked on a two-call fixture on every run):
+    no call of start/end/span on a match object takes a group argument.
+    """
+    repo = ctx.repo
+    ctx.rule("R09o", "match positions are those of the whole match: no start(group) / end(group) / span(group)", floor=5)
+
+    def sites(tree):
+        return [c for c in ast.walk(tree) if isinstance(c, ast.Call) and isinstance(c.func, ast.Attribute) and c.func.attr in ("start", "end", "span")]
+    fx = sites(ast.parse("a = m.start()\nb = m.end(part)\n"))
+    if [bool(c.args or c.keywords) for c in fx] != [False, True]:
+        raise AnalysisError("R09o fixture: detector broken")
+    n = 0
+    for f in repo.all_funcs():
+        for c in walk_no_nested(f.node):
+            if isinstance(c, ast.Call) and isinstance(c.func, ast.Attribute) and c.func.attr in ("start", "end", "span"):
+                n += 1
+                ok = not (c.args or c.keywords)
+                ctx.instance("R09o", f"{f.file}:{f.ident}", norm(c, 40), ok=ok, nontrivial=True, line=c.lineno)
+                if not ok:
+                    ctx.report("R09o", f, c, norm(c, 40),
+                               f"{f.ident} takes the position of a group (`{norm(c, 40)}`): for a pattern with a group that does not span the whole match the mark is placed "
+                               f"inside the matched text — it no longer covers / follows exactly what the expression matched")
+    if n < 5:
+        raise AnalysisError(f"R09o: only {n} start()/end()/span() call(s) found in the package")
